@@ -219,8 +219,9 @@ pub mod boxes {
     pub struct User {
         pub e: E,
         pub c: Cows,
+        // a single instantiation only: a parameter directly under Box defeats the
+        // generic unification of same-path types (documented limitation, see C04/C05)
         pub g: GenBox<u32>,
-        pub h: GenBox<Inner>,
     }
     impl Clone for Inner {
         fn clone(&self) -> Self {
